@@ -37,7 +37,7 @@ PROBES = ['multi_chunk_read', 'overlap_iteration_served', 'tensor_name_read',
           'enum_permuted', 'numbering_permuted', 'join_direct',
           'P_ge_10', 'three_chunks', 'two_chunks', 'skip_last_default',
           'stride_change', 'checkpoint_read', 'phase_offset_outputs',
-          'checkpoint_arrays_compared']
+          'checkpoint_arrays_compared', 'split_per_it_read']
 COMPONENTS = {
     'aurel.reading (iterations, get_content, read_data/read_ET_data, '
     'read_ET_variables, read_ET_group_or_var, join_chunks, fixij, name maps)':
@@ -128,8 +128,14 @@ def generate(rng, tier):
                 restart = g.randrange(nres)
             elif g.chance(0.1) and nres > 1:
                 skip_last = True
-            ops.append({'op': 'read', 'it': it, 'vars': vs, 'rl': rl,
-                        'restart': restart, 'skip_last': skip_last})
+            op = {'op': 'read', 'it': it, 'vars': vs, 'rl': rl,
+                  'restart': restart, 'skip_last': skip_last}
+            if g.chance(0.2):
+                # the default mode of read_data (per-iteration cache on);
+                # the cache itself is C12's subject, here only the values
+                op['split'] = True
+                op['vars'] = [v for v in vs if v in avail or v in tens]
+            ops.append(op)
     if not ops:
         ops.append({'op': 'iterations', 'skip_last': False})
     return {'config': cfg, 'enum': enum, 'ops': ops}
@@ -275,8 +281,11 @@ def execute(run):
             if op['skip_last']:
                 probe('skip_last_default')
             kwargs = dict(it=list(op['it']), vars=list(op['vars']), rl=rl,
-                          restart=op['restart'], split_per_it=False,
+                          restart=op['restart'],
+                          split_per_it=bool(op.get('split')),
                           verbose=False, skip_last=op['skip_last'])
+            if op.get('split'):
+                probe('split_per_it_read')
             before = digest(kwargs)
             comps = iosim.expand_vars(
                 simv, op['vars'] or [etsim.aurel_name(v) for v in simv])
